@@ -385,3 +385,200 @@ fn probe_layer_toggling_keeps_fresh_secrets() {
         assert!(got == vec![("f".to_string(), b"abc".to_vec())], "call sequence {seq}: archive does not read back");
     }
 }
+
+/// C01/C09/C10/C12/C20: EVERY interleaving of the calls that write three files (A: start, 3 bytes, an EMPTY append, 5 bytes, end;
+/// B: start, 4 bytes, end; C: start, end) gives an archive in which each file reads back -- per file, and by linear extraction --
+/// as exactly what was appended to it, with its size and hash; 2520 archives, no layer (the bookkeeping under test is the
+/// writer's run/offset table and the per-file reader's walk over it)
+#[test]
+fn probe_every_interleaving_of_three_files() {
+    use sha2::{Digest, Sha256};
+    // scripts: (file, op)  op: 0 = start, 1.. = append piece #op-1, 255 = end
+    let pieces: [&[&[u8]]; 3] = [&[b"abc", b"", b"defgh"], &[b"WXYZ"], &[]];
+    let names = ["file_a", "file_b", "file_c"];
+    let lens: Vec<usize> = pieces.iter().map(|p| p.len() + 2).collect();
+    fn rec(progress: &mut Vec<usize>, lens: &[usize], cur: &mut Vec<usize>, out: &mut Vec<Vec<usize>>) {
+        if (0..lens.len()).all(|f| progress[f] == lens[f]) { out.push(cur.clone()); return; }
+        for f in 0..lens.len() {
+            if progress[f] < lens[f] {
+                progress[f] += 1; cur.push(f);
+                rec(progress, lens, cur, out);
+                cur.pop(); progress[f] -= 1;
+            }
+        }
+    }
+    let mut orders = Vec::new();
+    rec(&mut vec![0; 3], &lens, &mut Vec::new(), &mut orders);
+    assert_eq!(orders.len(), 2520);
+    for order in orders {
+        let mut w = pnew();
+        let mut ids = [0u64; 3];
+        let mut step = [0usize; 3];
+        let mut script = String::new();
+        for &f in &order {
+            let k = step[f];
+            step[f] += 1;
+            if k == 0 {
+                ids[f] = w.start_file(names[f]).unwrap_or_else(|e| panic!("{script}start({}) refused: {e:?}", names[f]));
+                script += &format!("start({}); ", names[f]);
+            } else if k == lens[f] - 1 {
+                w.end_file(ids[f]).unwrap_or_else(|e| panic!("{script}end({}) refused: {e:?}", names[f]));
+                script += &format!("end({}); ", names[f]);
+            } else {
+                let p = pieces[f][k - 1];
+                w.append_file_content(ids[f], p.len() as u64, p).unwrap_or_else(|e| panic!("{script}append({}, {} bytes) refused: {e:?}", names[f], p.len()));
+                script += &format!("append({}, {} bytes); ", names[f], p.len());
+            }
+        }
+        w.finalize().unwrap_or_else(|e| panic!("{script}finalize refused: {e:?}"));
+        let bytes = w.into_raw();
+        let mut r = ArchiveReader::new(Cursor::new(bytes.clone())).unwrap_or_else(|e| panic!("{script}: archive does not open: {e:?}"));
+        let mut listed: Vec<String> = r.list_files().unwrap().cloned().collect();
+        listed.sort();
+        assert_eq!(listed, names.iter().map(|s| s.to_string()).collect::<Vec<_>>(), "{script}: wrong listing");
+        for f in 0..3 {
+            let want: Vec<u8> = pieces[f].concat();
+            let mut file = r.get_file(names[f].to_string()).unwrap_or_else(|e| panic!("{script}: get_file({}) fails: {e:?}", names[f])).expect("listed file exists");
+            assert_eq!(file.size, want.len() as u64, "{script}: recorded size of {}", names[f]);
+            let mut got = Vec::new();
+            file.data.read_to_end(&mut got).unwrap_or_else(|e| panic!("{script}: reading {} fails: {e:?}", names[f]));
+            assert!(got == want, "{script}: per-file read of {} gives {:?}, appended {:?}", names[f], String::from_utf8_lossy(&got), String::from_utf8_lossy(&want));
+            let h = r.get_hash(names[f]).unwrap().expect("hash of a listed file");
+            assert!(h[..] == Sha256::digest(&want)[..], "{script}: stored hash of {} is not the SHA-256 of its content", names[f]);
+        }
+        // linear extraction agrees
+        let mut r2 = ArchiveReader::new(Cursor::new(bytes)).unwrap();
+        let mut sinks: std::collections::HashMap<&String, Vec<u8>> = std::collections::HashMap::new();
+        let owned: Vec<String> = names.iter().map(|s| s.to_string()).collect();
+        for n in &owned { sinks.insert(n, Vec::new()); }
+        crate::helpers::linear_extract(&mut r2, &mut sinks).unwrap_or_else(|e| panic!("{script}: linear extraction fails: {e:?}"));
+        for f in 0..3 {
+            assert!(sinks[&owned[f]] == pieces[f].concat(), "{script}: linear extraction of {} differs from what was appended", names[f]);
+        }
+    }
+}
+
+/// C05: the destination of a repair may already hold entries (output ids then differ from the ids read in the source): an undamaged
+/// archive is still recovered completely, and the end of the original data is reported
+#[test]
+fn probe_repair_into_a_writer_that_already_holds_entries() {
+    for layers in [Layers::EMPTY, Layers::COMPRESS] {
+        let bytes = pwrite_to(Vec::new(), layers);
+        let mut fs = ArchiveFailSafeReader::from_config(&bytes[..], ArchiveReaderConfig::new()).expect("repair opens");
+        let mut oc = ArchiveWriterConfig::new();
+        oc.set_layers(Layers::EMPTY);
+        let mut ow = ArchiveWriter::from_config(Vec::new(), oc).unwrap();
+        ow.add_file("NOTE.txt", 5, &b"hello"[..]).unwrap();
+        let status = fs.convert_to_archive(&mut ow);
+        let status = status.unwrap_or_else(|e| panic!("layers {layers:?}: repair into a non-empty writer fails with {e:?}"));
+        assert!(matches!(status, FailSafeReadError::EndOfOriginalArchiveData), "layers {layers:?}: repair of an undamaged archive into a non-empty writer stopped with {status:?}");
+        let got = pread_all(Cursor::new(ow.into_raw()), Layers::EMPTY);
+        let mut want = pfiles();
+        want.push(("NOTE.txt".to_string(), b"hello".to_vec()));
+        want.sort();
+        assert!(got == want, "layers {layers:?}: content recovered into a non-empty writer differs from the original");
+    }
+}
+/// C02: EVERY prefix of a small archive (two interleaved files), for the four layer combinations and both repair modes: repair
+/// succeeds, what it produces opens normally, every file it contains has an original name and a prefix of that file's content
+#[test]
+fn probe_repair_every_prefix_of_a_small_archive() {
+    let fa: Vec<u8> = (0..700u32).map(|i| (i * 7) as u8).collect();
+    let fb: Vec<u8> = b"second file, shorter".to_vec();
+    for layers in [Layers::EMPTY, Layers::COMPRESS, Layers::ENCRYPT, Layers::COMPRESS | Layers::ENCRYPT] {
+        let mut c = ArchiveWriterConfig::new();
+        c.set_layers(layers);
+        if layers.contains(Layers::ENCRYPT) { c.add_public_keys(&[pkeys().1]); }
+        let mut w = ArchiveWriter::from_config(Vec::new(), c).unwrap();
+        let a = w.start_file("a").unwrap();
+        w.append_file_content(a, 300, &fa[..300]).unwrap();
+        let b = w.start_file("b").unwrap();
+        w.append_file_content(b, fb.len() as u64, &fb[..]).unwrap();
+        w.append_file_content(a, 400, &fa[300..]).unwrap();
+        w.end_file(b).unwrap();
+        w.end_file(a).unwrap();
+        w.finalize().unwrap();
+        let bytes = w.into_raw();
+        for cut in 0..=bytes.len() {
+            for unauth in [false, true] {
+                let mut rc = ArchiveReaderConfig::new();
+                if layers.contains(Layers::ENCRYPT) { rc.add_private_keys(&[pkeys().0]); }
+                if unauth { rc.failsafe_return_data_even_unauthenticated(); }
+                let mut fs = match ArchiveFailSafeReader::from_config(&bytes[..cut], rc) { Ok(f) => f, Err(_) => continue }; // header incomplete
+                let mut oc = ArchiveWriterConfig::new();
+                oc.set_layers(Layers::EMPTY);
+                let mut ow = ArchiveWriter::from_config(Vec::new(), oc).unwrap();
+                let status = fs.convert_to_archive(&mut ow).unwrap_or_else(|e| panic!("layers {layers:?}, prefix of {cut} bytes, unauth {unauth}: repair fails with {e:?}"));
+                if cut == bytes.len() {
+                    assert!(matches!(status, FailSafeReadError::EndOfOriginalArchiveData), "layers {layers:?}: complete archive, repair stopped with {status:?}");
+                }
+                let out = ow.into_raw();
+                let mut r = ArchiveReader::new(Cursor::new(out)).unwrap_or_else(|e| panic!("layers {layers:?}, prefix of {cut} bytes, unauth {unauth}: the repaired archive does not open: {e:?}"));
+                let names: Vec<String> = r.list_files().unwrap().cloned().collect();
+                for n in names {
+                    let orig: &[u8] = match n.as_str() { "a" => &fa, "b" => &fb, other => panic!("layers {layers:?}, prefix {cut}: repaired archive invents the name {other:?}") };
+                    let mut got = Vec::new();
+                    r.get_file(n.clone()).unwrap().unwrap().data.read_to_end(&mut got).unwrap_or_else(|e| panic!("layers {layers:?}, prefix {cut}: reading repaired {n} fails: {e:?}"));
+                    assert!(got.len() <= orig.len() && got[..] == orig[..got.len()], "layers {layers:?}, prefix of {cut} bytes, unauth {unauth}: repaired {n} is not a prefix of the original");
+                    if cut == bytes.len() { assert!(got.len() == orig.len(), "layers {layers:?}: complete archive, repaired {n} is shorter than the original"); }
+                }
+            }
+        }
+    }
+}
+
+/// C14/C05: a content block whose length is an exact multiple of the 8 MiB copy buffer of `convert_to_archive` is followed by more
+/// data of the same file and by another file: all of it is recovered
+#[test]
+fn probe_repair_block_of_exactly_the_copy_buffer_size() {
+    let big = pnoise(8 * 1024 * 1024 + 1000, 3);
+    for n in [8 * 1024 * 1024 - 1, 8 * 1024 * 1024, 8 * 1024 * 1024 + 1] {
+        let mut w = pnew();
+        let a = w.start_file("big").unwrap();
+        w.append_file_content(a, n as u64, &big[..n]).unwrap();
+        w.append_file_content(a, (big.len() - n) as u64, &big[n..]).unwrap();
+        w.end_file(a).unwrap();
+        w.add_file("small", 4, &b"tail"[..]).unwrap();
+        w.finalize().unwrap();
+        let bytes = w.into_raw();
+        let (status, got) = prepair(&bytes, Layers::EMPTY);
+        assert!(matches!(status, FailSafeReadError::EndOfOriginalArchiveData), "first block of {n} bytes: repair of an undamaged archive stopped with {status:?}");
+        assert!(got.len() == 2 && got[0].1 == big && got[1].1 == b"tail", "first block of {n} bytes: repair lost data ({} files, {} bytes of `big`)", got.len(), got.get(0).map_or(0, |g| g.1.len()));
+    }
+}
+
+/// C13/C06/C01: the SOURCE of a file's content may return fewer bytes than asked (pipe, socket, another archive's reader): the
+/// file stored, its recorded size and its stored SHA-256 are those of the content, for every layer combination
+#[test]
+fn probe_file_source_split_schedules() {
+    use sha2::{Digest, Sha256};
+    let content = pnoise(150_000, 11);
+    for layers in [Layers::EMPTY, Layers::COMPRESS | Layers::ENCRYPT] {
+        for k in [1usize, 7, 1000, 4095, 4096, 4097, 8192, 100_000] {
+            if k == 1 && !layers.is_empty() { continue; }
+            let mut c = ArchiveWriterConfig::new();
+            c.set_layers(layers);
+            if layers.contains(Layers::ENCRYPT) { c.add_public_keys(&[pkeys().1]); }
+            let mut w = ArchiveWriter::from_config(Vec::new(), c).unwrap();
+            w.add_file("first", 50_000, Trickle { c: Cursor::new(content[..50_000].to_vec()), k }).unwrap();
+            let id = w.start_file("second").unwrap();
+            w.append_file_content(id, 60_000, Trickle { c: Cursor::new(content[..60_000].to_vec()), k }).unwrap();
+            w.append_file_content(id, 90_000, Trickle { c: Cursor::new(content[60_000..].to_vec()), k }).unwrap();
+            w.end_file(id).unwrap();
+            w.finalize().unwrap();
+            let bytes = w.into_raw();
+            let mut rc = ArchiveReaderConfig::new();
+            if layers.contains(Layers::ENCRYPT) { rc.add_private_keys(&[pkeys().0]); }
+            let mut r = ArchiveReader::from_config(Cursor::new(bytes), rc).expect("archive opens");
+            for (name, want) in [("first", &content[..50_000]), ("second", &content[..])] {
+                let mut f = r.get_file(name.to_string()).unwrap().unwrap();
+                assert_eq!(f.size, want.len() as u64, "layers {layers:?}, source returning {k} bytes per read: recorded size of {name}");
+                let mut got = Vec::new();
+                f.data.read_to_end(&mut got).unwrap();
+                assert!(got == want, "layers {layers:?}, source returning {k} bytes per read: content of {name} differs");
+                let h = r.get_hash(name).unwrap().unwrap();
+                assert!(h[..] == Sha256::digest(want)[..], "layers {layers:?}, source returning {k} bytes per read: the stored hash of {name} is not the SHA-256 of its content");
+            }
+        }
+    }
+}
